@@ -148,6 +148,22 @@ func c08Func(fname string, params string, shape string, mode int, rng *rand.Rand
 		}
 		return "%" + v.name
 	}
+	// callee spellings: short form, full (non-variadic) function type, variadic callee with its full type
+	voidCallee := func() string {
+		switch rng.Intn(4) {
+		case 0:
+			return "void () @vf()"
+		case 1:
+			return "void (...) @vv()"
+		}
+		return "void @vf()"
+	}
+	intCallee := func() string {
+		if rng.Intn(3) == 0 {
+			return "i32 () @if()"
+		}
+		return "i32 @if()"
+	}
 	sink := sinkBase
 	useLine := func(v c08Val) string {
 		s := fmt.Sprintf("  store i32 %s, i32* @sink%d\n", ref(v), sink)
@@ -201,16 +217,16 @@ func c08Func(fname string, params string, shape string, mode int, rng *rand.Rand
 			case 'f':
 				sb.WriteString("  fence seq_cst\n")
 			case 'v':
-				sb.WriteString("  call void @vf()\n")
+				fmt.Fprintf(&sb, "  call %s\n", voidCallee())
 			case 'c':
-				def("call i32 @if()")
+				def("call " + intCallee())
 				sb.WriteString(useLine(vals[len(vals)-1]))
 			case 'I':
-				fmt.Fprintf(&sb, "  invoke void @vf() to label %s unwind label %%lpad\n", nextLabel())
+				fmt.Fprintf(&sb, "  invoke %s to label %s unwind label %%lpad\n", voidCallee(), nextLabel())
 				terminated = true
 			case 'i':
 				id := numOf[[2]int{bi, ii}]
-				rhs := fmt.Sprintf("invoke i32 @if() to label %s unwind label %%lpad", nextLabel())
+				rhs := fmt.Sprintf("invoke %s to label %s unwind label %%lpad", intCallee(), nextLabel())
 				if explicit() {
 					fmt.Fprintf(&sb, "  %%%d = %s\n", id, rhs)
 				} else {
@@ -222,7 +238,7 @@ func c08Func(fname string, params string, shape string, mode int, rng *rand.Rand
 				id := numOf[[2]int{bi, ii}]
 				nameCtr++
 				cs, h := fmt.Sprintf("cs%d", nameCtr), fmt.Sprintf("h%d", nameCtr)
-				fmt.Fprintf(&sb, "  invoke void @vf() to label %s unwind label %%%s\n", nextLabel(), cs)
+				fmt.Fprintf(&sb, "  invoke %s to label %s unwind label %%%s\n", voidCallee(), nextLabel(), cs)
 				fmt.Fprintf(&sb, "%s:\n", cs)
 				vals = append(vals, c08Val{"block", -1, cs})
 				rhs := fmt.Sprintf("catchswitch within none [label %%%s] unwind to caller", h)
@@ -237,7 +253,7 @@ func c08Func(fname string, params string, shape string, mode int, rng *rand.Rand
 				vals = append(vals, c08Val{"inst", -1, fmt.Sprintf("cp%d", nameCtr)})
 				terminated = true
 			case 'K':
-				fmt.Fprintf(&sb, "  callbr void asm \"\", \"\"() to label %s []\n", nextLabel())
+				fmt.Fprintf(&sb, "  callbr %s asm \"\", \"\"() to label %s []\n", []string{"void", "void ()"}[rng.Intn(2)], nextLabel())
 				terminated = true
 			case 'k':
 				id := numOf[[2]int{bi, ii}]
@@ -318,7 +334,7 @@ func genC08(ctx *fw.Ctx) []fw.Case {
 	return cases
 }
 
-const c08Prelude = "declare i32 @pers(...)\ndeclare void @vf()\ndeclare i32 @if()\n@scratch = global i32 0\n"
+const c08Prelude = "declare i32 @pers(...)\ndeclare void @vf()\ndeclare void @vv(...)\ndeclare i32 @if()\n@scratch = global i32 0\n"
 
 func c08FuncBatch(r *fw.Rec, shapes []string, base int) {
 	rng := r.Ctx().Rand(fmt.Sprintf("c08/%d", base))
@@ -344,6 +360,36 @@ func c08FuncBatch(r *fw.Rec, shapes []string, base int) {
 		}
 		for k := 0; k < sink; k++ {
 			fmt.Fprintf(&sb, "@sink%d = global i32 0\n", k)
+		}
+		// the numbers are also used from outside: a table of the addresses of the
+		// unnamed non-entry blocks before the functions (LLVM takes the address of
+		// a numeric label only before the function is defined) 
+		var basNum, basNamed []string
+		for _, fnn := range fns {
+			first := true
+			for _, v := range fnn.vals {
+				if v.kind != "block" {
+					continue
+				}
+				if first {
+					first = false
+					continue
+				}
+				if v.id >= 0 {
+					basNum = append(basNum, fmt.Sprintf("i8* blockaddress(%s, %%%d)", fnn.name, v.id))
+				}
+				// (named blocks of the same functions are left alone: LLVM 14 mixes up a
+				// forward numeric and a named blockaddress into one function)
+			}
+		}
+		body := sb.String()
+		sb.Reset()
+		if len(basNum) > 0 {
+			fmt.Fprintf(&sb, "@block.table.numbered = global [%d x i8*] [%s]\n", len(basNum), strings.Join(basNum, ", "))
+		}
+		sb.WriteString(body)
+		if len(basNamed) > 0 {
+			fmt.Fprintf(&sb, "@block.table.named = global [%d x i8*] [%s]\n", len(basNamed), strings.Join(basNamed, ", "))
 		}
 		text := sb.String()
 		modeName := []string{"explicit", "implicit", "mixed"}[mode]
